@@ -274,6 +274,13 @@ impl Walrus {
         let mut topic_block_entry_counts: HashMap<String, Vec<u64>> = HashMap::new();
 
         for file_path in files.iter() {
+            // A crash between creating a WAL file and sizing it leaves a file shorter than
+            // MAX_FILE_SIZE. Nothing was ever acknowledged into it (it is handed out only after
+            // set_len + sync), and scanning it would read past its end.
+            match fs::metadata(file_path) {
+                Ok(m) if m.len() >= MAX_FILE_SIZE => {}
+                _ => continue,
+            }
             let mmap = match SharedMmapKeeper::get_mmap_arc(file_path) {
                 Ok(m) => m,
                 Err(e) => {
